@@ -162,7 +162,7 @@ impl Graph {
         }
     }
     /// (by-value deps, pointer-only deps) of node i
-    fn deps(&self, i: usize) -> (BTreeSet<usize>, BTreeSet<usize>) {
+    pub fn deps(&self, i: usize) -> (BTreeSet<usize>, BTreeSet<usize>) {
         let n = &self.nodes[i];
         let mut v = BTreeSet::new();
         let mut p = BTreeSet::new();
